@@ -16,6 +16,7 @@
  Rn arg roles     : a variable named like a parameter of the callee is handed to that parameter (no exchanged roles).
  R7 fibre inputs  : f_ref x lambda_ref = c for every input form; NLI evaluated after input connector + padding (shared with C05-R1).
  Rs2 fibre tables  : the per-frequency fibre parameters are interpolated on an ascending abscissa (rule shared with C05).
+ R8 selecting defaults: keys whose None-ness selects what FiberParams derives have no concrete library default.
 """
 import ast
 from fractions import Fraction
@@ -337,6 +338,15 @@ def rs_fibre_tables(ctx):
     _rs(proxy(ctx, 'Rs2'))
 
 
+
+def r8_selecting_defaults(ctx):
+    """R8: the fibre non-linear coefficient the NLI uses is the one the library entry gives: a key whose absence (None) makes
+    FiberParams derive it from another key (effective_area <-> gamma) has NO concrete default in the library loader classes"""
+    from ..presence import selecting_defaults_rule
+    n = selecting_defaults_rule(ctx, 'R8.selecting-defaults', 'a fibre defined by gamma alone would get the default effective area and its gamma be ignored')
+    ctx.need('R8.selecting-defaults', 1)
+
+
 from ..memo import rule_for as _memo_rule
 
 RULES_MEMO = ('Rm.memo', _memo_rule('C03', 'the NLI of another fibre configuration or spectrum would be applied'))
@@ -346,4 +356,4 @@ from ..presence import rule_for as _presence_rule
 
 RULES_PRESENCE = ('Rp.presence', _presence_rule('C03', 'a fibre given an explicit 0 would get the default model instead'))
 
-RULES = [('R5.order-independence', r5_sorted), ('R1.closed-form', r1_closed_form), ('R2.combination', r2_combination), ('R3.coefficients', r3_coefficients), RULES_MEMO, RULES_PRESENCE, ('Rs.sorted-abscissa', rs_sorted), ('R6.applied', r6_applied), ('Rn.arg-roles', rn_arg_roles), ('R7.fibre-inputs', r7_fibre_inputs), ('Rs2.sorted-abscissa', rs_fibre_tables)]
+RULES = [('R5.order-independence', r5_sorted), ('R1.closed-form', r1_closed_form), ('R2.combination', r2_combination), ('R3.coefficients', r3_coefficients), RULES_MEMO, RULES_PRESENCE, ('Rs.sorted-abscissa', rs_sorted), ('R6.applied', r6_applied), ('Rn.arg-roles', rn_arg_roles), ('R7.fibre-inputs', r7_fibre_inputs), ('Rs2.sorted-abscissa', rs_fibre_tables), ('R8.selecting-defaults', r8_selecting_defaults)]
